@@ -321,6 +321,8 @@ def main(prop, argv):
             print('HARNESS-ERROR %s case=%s' % (msg, json.dumps(case, sort_keys=True)[:400]))
             print(tb)
     unknown = 0
+    unreproduced = 0
+    verified = 0
     known_seen = []
     for sig, occ in sorted(agg.by_sig.items()):
         if sig in known_open:
@@ -356,15 +358,21 @@ def main(prop, argv):
         p = subprocess.run([sys.executable, os.path.join(VERIF, 'check'), prop, '--replay', path],
                            capture_output=True, text=True, env=env, timeout=600)
         if p.returncode != 1:
-            print('HARNESS-ERROR replay of %s did not reproduce (rc=%d)\n%s\n%s' % (
-                path, p.returncode, p.stdout[-2000:], p.stderr[-2000:]))
-            rc = 2
+            # seen in a worker process but not reproduced from the replay file in a fresh
+            # interpreter (e.g. it depended on state left behind by earlier cases in the same
+            # process): never reported as a verdict on its own
+            print('UNREPRODUCED signature %s: replay of %s gave rc=%d\n%s\n%s' % (
+                sig, path, p.returncode, p.stdout[-1200:], p.stderr[-800:]))
+            unreproduced += 1
             continue
+        verified += 1
         print('signature: %s (%d occurrences)' % (sig, len(occ)))
         print(det)
         print('VIOLATION property=%s replay=%s' % (prop, path))
         if rc == 0:
             rc = 1
+    if unreproduced and not verified and rc == 0:
+        rc = 2      # nothing but unreproducible observations: a harness problem, not a verdict
     if not args.no_evidence and rc != 2:
         write_evidence(prop, mod, tier, args.seed, agg, complete, wall, unknown, known_seen, jobs)
     print('%s: %d evaluations, %d distinct non-trivial, %d unknown signatures, %d known, '
